@@ -496,6 +496,7 @@ func createSwitchStatementChunks(stmt *ast.SwitchStatement, statementIndex int, 
 	branchCases := []*switchCaseBranch{}
 	i := 0
 	processedDefaultCase := false
+	var exitChunk *chunk
 	for i < len(stmt.Cases) {
 		switchCase := stmt.Cases[i]
 		destChunkID := -1
@@ -561,8 +562,21 @@ func createSwitchStatementChunks(stmt *ast.SwitchStatement, statementIndex int, 
 			// bodies, we want to completely omit even rendering the switch statement because
 			// it's a no-op. By early-returning here, we avoid adding the switch branchBehavior,
 			// which will result in the switch not being rendered in the output.
-			if len(branchCases) == 0 {
+			if len(branchCases) == 0 && !processedDefaultCase {
 				return remainingChunks, &jump{destChunkID: switchChunk.id}, returnID
+			}
+			if processedDefaultCase && !stmt.Cases[i].IsDefault {
+				// A trailing body-less case does nothing. Since a default body exists, it needs
+				// an explicit (empty) destination, otherwise its value would run the default body.
+				if exitChunk == nil {
+					*chunkCounter++
+					exitChunk = &chunk{id: *chunkCounter, returnID: returnID}
+					remainingChunks = append(remainingChunks, exitChunk)
+				}
+				branchCases = append(branchCases, &switchCaseBranch{
+					comparisonValue: stmt.Cases[i].Value,
+					destChunkID:     exitChunk.id,
+				})
 			}
 		} else if !stmt.Cases[i].IsDefault {
 			branchCases = append(branchCases, &switchCaseBranch{
